@@ -380,16 +380,147 @@ func (ex *Exec) ufAxiomInjective(family string, fname string, arg, res *Term) {
 }
 
 // sha256 summary: concrete input -> real digest (also recorded as a fact about
-// the UF); symbolic input -> uninterpreted 256-bit function, pairwise injective.
+// the UF once a symbolic application exists); symbolic input -> one
+// uninterpreted function per input length over bit-vectors, pairwise
+// injective (collision-freeness assumption), so everything stays in QF_UFBV.
+// parseExtract recognises "((_ extract H L) BASE)".
+func parseExtract(t *Term) (hi, lo int, base string, ok bool) {
+	const pre = "((_ extract "
+	if !strings.HasPrefix(t.S, pre) {
+		return
+	}
+	rest := t.S[len(pre):]
+	i := strings.IndexByte(rest, ')')
+	if i < 0 {
+		return
+	}
+	if _, err := fmt.Sscanf(rest[:i], "%d %d", &hi, &lo); err != nil {
+		return
+	}
+	base = rest[i+2 : len(rest)-1]
+	return hi, lo, base, true
+}
+
+// mergeBytes turns a byte list into bit-vector pieces, fusing runs of
+// adjacent extracts of one term and runs of literals.
+func mergeBytes(in []Value) []*Term {
+	var parts []*Term
+	type run struct {
+		hi, lo int
+		base   string
+	}
+	var cur *run
+	var lit []byte
+	flushRun := func() {
+		if cur != nil {
+			parts = append(parts, &Term{fmt.Sprintf("((_ extract %d %d) %s)", cur.hi, cur.lo, cur.base), SBV(cur.hi - cur.lo + 1)})
+			cur = nil
+		}
+	}
+	flushLit := func() {
+		if len(lit) > 0 {
+			parts = append(parts, &Term{"#x" + hex.EncodeToString(lit), SBV(8 * len(lit))})
+			lit = nil
+		}
+	}
+	for _, b := range in {
+		bi := b.(Int)
+		if bi.T == nil {
+			flushRun()
+			lit = append(lit, byte(bi.C))
+			continue
+		}
+		flushLit()
+		if hi, lo, base, ok := parseExtract(bi.T); ok {
+			if cur != nil && cur.base == base && cur.lo == hi+1 {
+				cur.lo = lo
+				continue
+			}
+			flushRun()
+			cur = &run{hi, lo, base}
+			continue
+		}
+		flushRun()
+		parts = append(parts, bi.T)
+	}
+	flushRun()
+	flushLit()
+	// an extract covering a whole declared term is the term itself: we cannot
+	// know the base width from the string, so leave it to the solver.
+	return parts
+}
+
+func bvOfBytes(in []Value) *Term {
+	if len(in) == 1 {
+		return in[0].(Int).Term()
+	}
+	parts := mergeBytes(in)
+	for len(parts) > 1 {
+		var next []*Term
+		for i := 0; i < len(parts); i += 8 {
+			j := min(i+8, len(parts))
+			if j-i == 1 {
+				next = append(next, parts[i])
+				continue
+			}
+			var sb strings.Builder
+			w := 0
+			sb.WriteString("(concat")
+			for _, p := range parts[i:j] {
+				sb.WriteByte(' ')
+				sb.WriteString(p.S)
+				w += p.Sort.W
+			}
+			sb.WriteByte(')')
+			next = append(next, mk(sb.String(), SBV(w)))
+		}
+		parts = next
+	}
+	return parts[0]
+}
+
+type shaApp struct {
+	n   int
+	arg *Term
+	res *Term
+}
+
+func (ex *Exec) shaRecord(n int, arg, res *Term) {
+	apps, _ := ex.side["shaApps"].([]shaApp)
+	for _, p := range apps {
+		if p.n == n && p.arg.S == arg.S {
+			return
+		}
+	}
+	for _, p := range apps {
+		if p.n != n {
+			ex.addPC(Not(Eq(p.res, res)))
+		} else {
+			ex.addPC(Implies(Eq(p.res, res), Eq(p.arg, arg)))
+		}
+	}
+	ex.side["shaApps"] = append(apps, shaApp{n, arg, res})
+}
+
+func (ex *Exec) shaTerm(n int, arg *Term) *Term {
+	if n == 0 {
+		return &Term{"#xe3b0c44298fc1c149afbf4c8996fb92427ae41e4649b934ca495991b7852b855", SBV(256)}
+	}
+	f := UF(fmt.Sprintf("sha256_%d", n), []Sort{SBV(8 * n)}, SBV(256))
+	return App(f, SBV(256), arg)
+}
+
 func (ex *Exec) sha256Of(in []Value) []Value {
-	f := UF("sha256", []Sort{SSeq}, SBV(256))
 	emitConc := func(bs []byte) {
+		if len(bs) == 0 {
+			return
+		}
 		d := sha256.Sum256(bs)
-		arg := SeqOfString(string(bs))
-		res := App(f, SBV(256), arg)
+		arg := &Term{"#x" + hex.EncodeToString(bs), SBV(8 * len(bs))}
+		res := ex.shaTerm(len(bs), arg)
 		lit := &Term{"#x" + hex.EncodeToString(d[:]), SBV(256)}
 		ex.addPC(Eq(res, lit))
-		ex.ufAxiomInjective("sha256", f, arg, res)
+		ex.shaRecord(len(bs), arg, res)
 	}
 	if bs, ok := concBytes(in); ok {
 		d := sha256.Sum256(bs)
@@ -410,9 +541,9 @@ func (ex *Exec) sha256Of(in []Value) []Value {
 			emitConc(bs)
 		}
 	}
-	arg := ex.seqOfBytes(in)
-	res := App(f, SBV(256), arg)
-	ex.ufAxiomInjective("sha256", f, arg, res)
+	arg := bvOfBytes(in)
+	res := ex.shaTerm(len(in), arg)
+	ex.shaRecord(len(in), arg, res)
 	out := make([]Value, 32)
 	for i := 0; i < 32; i++ {
 		hi := 255 - 8*i
